@@ -117,3 +117,58 @@ def explode_assigns(stmts):
                 continue
         out.append(st)
     return out
+
+
+def body_with_tail(model, f):
+    """the statements of f followed by those of a method of the same class that f calls in its final
+    `return self.m(...)` (a tail of the function moved into a helper method; one level)"""
+    body = list(f.node.body)
+    last = body[-1] if body else None
+    if isinstance(last, ast.Return) and isinstance(last.value, ast.Call) and isinstance(last.value.func, ast.Attribute) \
+            and isinstance(last.value.func.value, ast.Name) and last.value.func.value.id == 'self' and f.cls is not None:
+        q = f.qname.rsplit('.', 1)[0] + '.' + last.value.func.attr
+        if model.has_func(q):
+            body += list(model.func(q).node.body)
+    return body
+
+
+def alias_text(fnode, expr):
+    """source text of expr in which every local name that is bound exactly once in fnode (plain
+    assignment, no loop / augmented assignment) is replaced by the text of that value (one level)"""
+    import copy as _copy
+    binds = {}
+    for n in ast.walk(fnode):
+        if isinstance(n, ast.Assign):
+            for t in n.targets:
+                for m in ast.walk(t):
+                    if isinstance(m, ast.Name):
+                        binds.setdefault(m.id, []).append(n.value if isinstance(t, ast.Name) else None)
+        elif isinstance(n, (ast.AugAssign, ast.AnnAssign, ast.For, ast.comprehension, ast.NamedExpr)):
+            for m in ast.walk(n.target):
+                if isinstance(m, ast.Name):
+                    binds.setdefault(m.id, []).append(None)
+        elif isinstance(n, ast.arg):
+            binds.setdefault(n.arg, []).append(None)
+    out = ast.unparse(expr)
+    names = {m.id for m in ast.walk(expr) if isinstance(m, ast.Name) and isinstance(m.ctx, ast.Load)}
+    import re as _re
+    for nm in names:
+        v = binds.get(nm)
+        if v and len(v) == 1 and v[0] is not None:
+            out = _re.sub(r'(?<![\w.])%s(?!\w)' % _re.escape(nm), '(' + ast.unparse(v[0]) + ')', out)
+    return out
+
+
+def reach_text(func, expr):
+    """source text of expr in which every local name with exactly one reaching definition that is a
+    plain assignment is replaced by the text of the assigned value (one level; flow-sensitive)"""
+    import re as _re
+    from .rdefs import reachdefs
+    rd = reachdefs(func)
+    out = ast.unparse(expr)
+    for m in ast.walk(expr):
+        if isinstance(m, ast.Name) and isinstance(m.ctx, ast.Load):
+            ds = rd.defs_of(m)
+            if len(ds) == 1 and ds[0][0] == 'assign' and isinstance(ds[0][2], ast.AST):
+                out = _re.sub(r'(?<![\w.])%s(?!\w)' % _re.escape(m.id), '(' + ast.unparse(ds[0][2]) + ')', out)
+    return out
